@@ -215,6 +215,10 @@ impl<'a> GeneratorState<'a> {
                         match left {
                             ExprType::Absolute(_, _, _) => {
                                 self.asm(STX, left, pos, high_byte)?;
+                                // STX/STY leave the flags unchanged, but they may describe the former content of memory
+                                if let FlagsState::Absolute(_, _, _) | FlagsState::AbsoluteX(_) | FlagsState::AbsoluteY(_) = self.flags {
+                                    self.flags = FlagsState::Unknown;
+                                }
                                 /*
                                 if !eight_bits {
                                     if *offset == 0 {
@@ -254,6 +258,10 @@ impl<'a> GeneratorState<'a> {
                                     && v.var_type != VariableType::CharPtr
                                 {
                                     self.asm(STX, left, pos, high_byte)?;
+                                    // STX/STY leave the flags unchanged, but they may describe the former content of memory
+                                    if let FlagsState::Absolute(_, _, _) | FlagsState::AbsoluteX(_) | FlagsState::AbsoluteY(_) = self.flags {
+                                        self.flags = FlagsState::Unknown;
+                                    }
                                 } else {
                                     if self.acc_in_use {
                                         self.sasm(PHA)?;
@@ -299,6 +307,10 @@ impl<'a> GeneratorState<'a> {
                         match left {
                             ExprType::Absolute(_, _, _) => {
                                 self.asm(STY, left, pos, high_byte)?;
+                                // STX/STY leave the flags unchanged, but they may describe the former content of memory
+                                if let FlagsState::Absolute(_, _, _) | FlagsState::AbsoluteX(_) | FlagsState::AbsoluteY(_) = self.flags {
+                                    self.flags = FlagsState::Unknown;
+                                }
                                 /*
                                 if !eight_bits {
                                     if *offset == 0 {
@@ -336,6 +348,10 @@ impl<'a> GeneratorState<'a> {
                                 let v = self.compiler_state.get_variable(variable);
                                 if v.memory == VariableMemory::Zeropage {
                                     self.asm(STY, left, pos, high_byte)?;
+                                    // STX/STY leave the flags unchanged, but they may describe the former content of memory
+                                    if let FlagsState::Absolute(_, _, _) | FlagsState::AbsoluteX(_) | FlagsState::AbsoluteY(_) = self.flags {
+                                        self.flags = FlagsState::Unknown;
+                                    }
                                 } else {
                                     if self.acc_in_use {
                                         self.sasm(PHA)?;
